@@ -286,6 +286,30 @@ pub fn run(cfg: &RunCfg) -> i32 {
   let total = cfg.budget(12_000, 300_000);
   let o = drive(cfg, "rules", total, &known, || strategy(&opts, 4), |c, st| interpret(&corpus, &opts, c, st), check);
   report.absorb("rules", o);
+  // the rule families of C04 (relational candidate loops around binding sub-rules, negation,
+  // utilities) judged by this property's oracle: verdict on every node against O-eval
+  let total = cfg.budget(8_000, 150_000);
+  let o = drive(
+    cfg,
+    "families",
+    total,
+    &known,
+    crate::c04::family_strategy,
+    |c, st| {
+      let k = crate::c04::interpret_family(c, st)?;
+      if !k.globals.is_empty() {
+        return None;
+      }
+      Some(Case {
+        lang: k.lang,
+        source: k.source,
+        rule: k.rule,
+        utils: k.utils,
+      })
+    },
+    check,
+  );
+  report.absorb("families", o);
   report.floor("nontrivial", 0.15, "evaluations");
   crate::fuzz::stage(cfg, &mut report, &known, 20000);
   report.finish()
